@@ -29,7 +29,7 @@ func c17Zone(host, sep string) string {
 // TestVerifC17: offline-mode policy of the periodic repair pass.
 func TestVerifC17(t *testing.T) {
 	stt := vs.NewStats(t, "C17")
-	stt.Rule = "the real repairOfflineMode on a cluster state collected by the real getClusterStateFromDB over the fake servers: 1-6 replicas named over 1-3 zones with separator '-', '.', '' or absent, offline_mode_max_offline_pct in {0,1,33,34,50,66,99,100} or any value 0-100, enable lag 10s / disable lag 5s, per replica lag on the grid {0,4,5,6,9,10,11,40} or unknown (SQL thread stopped), already offline or not, replication permanently broken (IO error 13114 with unapplied relay) or not, resetup status {negative fresh, positive, older than the server start, missing}; master writable or read-only, offline or not, marked for recovery or not; 1-3 passes with time advancing across offline_mode_enable_interval; oracle = validity of every offline_mode statement in arrival order (lag rule with the per-zone cap counting earlier statements of the pass, broken rule at most once per interval cluster-wide, online only with lag <= disable, not broken, negative status newer than the server start; nothing between the thresholds; master only ever OFF and only when not marked); non-trivial = at least one offline_mode statement was judged"
+	stt.Rule = "the real repairOfflineMode on a cluster state collected by the real getClusterStateFromDB over the fake servers: 1-6 replicas named over 1-3 zones with separator '-', '.', '' or absent, offline_mode_max_offline_pct in {0,1,33,34,50,66,99,100} or any value 0-100, enable lag 10s / disable lag 5s, per replica lag on the grid {0,4,5,6,9,10,11,40} or unknown (SQL thread stopped), already offline or not, replication permanently broken (IO error 13114 with unapplied relay) or not, resetup status {negative fresh, positive, older than the server start, missing}; master writable or read-only, offline or not, marked for recovery or not; the optimisation-registry write that follows a lag-based offline statement failing never / always / the first time; 1-3 passes with time advancing across offline_mode_enable_interval; oracle = validity of every offline_mode statement in arrival order (lag rule with the per-zone cap counting earlier statements of the pass, broken rule at most once per interval cluster-wide, online only with lag <= disable, not broken, negative status newer than the server start; nothing between the thresholds; master only ever OFF and only when not marked); non-trivial = at least one offline_mode statement was judged"
 	stt.Assumptions = simAssumptions
 	lags := []int{0, 4, 5, 6, 9, 10, 11, 40}
 	stt.Check(t, vs.CheckOpts{Bubble: true}, func(c *vs.Case) {
@@ -143,6 +143,20 @@ func TestVerifC17(t *testing.T) {
 			} else {
 				s.zk.RawDelete(simNS + "/" + pathRecovery + "/" + master)
 			}
+			// the registration of a replica taken offline for lag (a coordination-service write made
+			// right after the statement) may fail: the statement still counts towards the zone's share
+			regFail := c.Src.Pick("optimization_registration_fails", "never", "never", "always", "first-only")
+			regSeen := 0
+			s.zk.Intercept = func(r *vs.ZKReq) vs.ZKAction {
+				if regFail == "never" || r.Client == "raw" || r.Op != vs.OpCreate || !strings.Contains(r.Path, "/optimization_nodes/") {
+					return vs.ZKProceed
+				}
+				regSeen++
+				if regFail == "first-only" && regSeen > 1 {
+					return vs.ZKProceed
+				}
+				return vs.ZKCutBefore
+			}
 			var cs map[string]*nodestate.NodeState
 			from := s.w.StmtLen()
 			s.runFunc(p, "repairOfflineMode", func() {
@@ -150,6 +164,7 @@ func TestVerifC17(t *testing.T) {
 				from = s.w.StmtLen()
 				p.app.repairOfflineMode(cs, master)
 			})
+			s.zk.Intercept = nil
 			// ---- judge every offline_mode statement in arrival order
 			zoneSize, zoneOffline := map[string]int{}, map[string]int{}
 			for _, h := range ha[1:] {
